@@ -18,12 +18,24 @@ import tempfile
 from . import common as cm
 
 REQ = ["Sys.Actions", "Sys.Wire"]
+ANCHORS = ["pyflyby._cmdline:parse_args", "pyflyby._cmdline:process_actions", "pyflyby._cmdline:Modifier",
+           "pyflyby._cmdline:filename_args", "pyflyby._cmdline:action_print", "pyflyby._cmdline:action_ifchanged",
+           "pyflyby._cmdline:action_replace", "pyflyby._cmdline:action_exit1", "pyflyby._cmdline:action_external_command",
+           "pyflyby._cmdline:action_query", "pyflyby._cmdline:symlink_callback", "pyflyby._cmdline:symlink_error",
+           "pyflyby._cmdline:symlink_follow", "pyflyby._cmdline:symlink_skip", "pyflyby._cmdline:symlink_replace",
+           "pyflyby._file:expand_py_files_from_args", "pyflyby._file:read_file"]
 
 TOOLS = {
     "tidy-imports": {"extra": [], "chg": "import os, sys\nos\n# %s\n", "same": "import os\nos\n# %s\n", "bad": "def (:\n# %s\n"},
     "reformat-imports": {"extra": [], "chg": "import sys, os\nos, sys\n# %s\n", "same": "import os\nimport sys\nos, sys\n# %s\n", "bad": "import (\n# %s\n"},
     "transform-imports": {"extra": ["--transform=aa.bb=xx.yy"], "chg": "from aa.bb import cc\ncc\n# %s\n", "same": "import qq\nqq\n# %s\n", "bad": "def (:\n# %s\n"},
 }
+# file kinds whose processing fails, each with a different exception class
+FAIL_KINDS = {"nul": "import os, sys\nos\n\x00\n# %s\n",            # SyntaxError / ValueError (null byte)
+              "deep": "x = " + "-" * 3000 + "1\n# %s\n"}             # RecursionError
+BIN_BYTES = b"\xff\xfe not utf-8 # %s\n"                            # UnicodeDecodeError in read_file
+TEXT_KINDS = ("chg", "same", "bad", "nul", "deep")
+ANSWERS = ["y", "n", "", "Yes", "no", " y", "YES", "yn", "\ty", "ok", "Y ", " ", "\t", "yes please", "q"]
 SYMVALS = ["error", "follow", "skip", "replace"]
 ACTION_WORDS = {"PRINT": "Print", "REPLACE": "Replace", "IFCHANGED": "IfChanged", "QUERY": "Query", "DIFF": "Diff",
                 "EXIT1": "Exit1", "EXECUTE:true": "Execute", "QUERY:Go on?": "Query"}
@@ -74,30 +86,82 @@ def gen_opts(r):
 def gen_case(r, i, mode=None):
     tool = r.choice(["tidy-imports", "tidy-imports", "reformat-imports", "transform-imports"])
     files = {}
+    abs_links = []
     nbase = r.randint(1, 4)
     base = ["f%d.py" % j for j in range(nbase)]
     for b in base:
-        files[b] = r.choice(["chg", "chg", "same", "bad"])
-    nlinks = r.choice([0, 0, 1, 1, 2])
-    for j in range(nlinks):
-        files["l%d.py" % j] = "link:" + r.choice(base)
-    if r.random() < .12:
-        files["dang.py"] = "dangling"
-    if r.random() < .2:
-        files["gone.py"] = "missing"
+        files[b] = r.choice(["chg", "chg", "chg", "same", "bad", "bad", "nul", "deep", "bin"])
     if r.random() < .22:
         files["d"] = "dir"
+    # symlinks: one hop or chains of 2-3 hops, relative or absolute text, into the directory, dangling, a loop
+    nlinks = r.choice([0, 0, 1, 1, 2, 3])
+    links = []
+    for j in range(nlinks):
+        name = "l%d.py" % j
+        pool = base + links + links                       # pointing at an earlier link makes a chain
+        if "d" in files:
+            pool.append("d/inner.py")
+        files[name] = "link:" + r.choice(pool)
+        links.append(name)
+        if r.random() < .4:
+            abs_links.append(name)
+    if r.random() < .12:
+        files["dang.py"] = "dangling"
+        if links and r.random() < .5:
+            files["l9.py"] = "link:dang.py"                # a chain that ends nowhere
+    if r.random() < .08:
+        files["loopa.py"] = "link:loopb.py"
+        files["loopb.py"] = "link:loopa.py"
+    if r.random() < .2:
+        files["gone.py"] = "missing"
     args = list(files)
     r.shuffle(args)
     if r.random() < .15 and base:
         args.append(r.choice(base))                    # the same file twice
     args = args[:6]
     argv, terms = gen_opts(r)
-    answers = [r.choice(["y", "n", "", "Yes", "no", " y", "YES", "yn", "\ty", "ok", "Y "]) for _ in range(r.randint(0, 6))]
+    answers = [r.choice(ANSWERS) for _ in range(r.randint(0, 6))]
+    if r.random() < .15:
+        # QUERY-shaped: regular files only, one QUERY ahead of REPLACE, answers of every flavour, EOF included
+        files = {b: r.choice(["chg", "chg", "chg", "same", "bad"]) for b in base}
+        abs_links = []
+        args = list(files)
+        r.shuffle(args)
+        k = r.random()
+        if k < .3:
+            argv, terms = ["--actions=QUERY,REPLACE"], ["(OActions [Query; Replace])"]
+        elif k < .6:
+            argv, terms = ["--actions=IFCHANGED,QUERY,REPLACE"], ["(OActions [IfChanged; Query; Replace])"]
+        elif k < .8:
+            argv, terms = ["--actions=ifchanged,QUERY:Rewrite?,replace"], ["(OActions [IfChanged; Query; Replace])"]
+        else:
+            argv, terms = ["-i"], ["OInteractive"]
+        answers = [r.choice(ANSWERS) for _ in range(r.randint(0, len(args) + 1))]
+    elif r.random() < .12:
+        # chain-shaped: a symlink chain of 2-3 hops given as argument under an explicit policy with REPLACE reachable
+        files = {"f0.py": r.choice(["chg", "chg", "chg", "same", "bad", "bin"]), "f1.py": "chg"}
+        hops = r.randint(2, 3)
+        names = ["l%d.py" % j for j in range(hops)]
+        if r.random() < .3:
+            files["d"] = "dir"
+        end = "d/inner.py" if "d" in files and r.random() < .5 else "f0.py"
+        for j, nm in enumerate(names):
+            files[nm] = "link:" + (names[j + 1] if j + 1 < hops else end)
+        abs_links = [nm for nm in names if r.random() < .4]
+        args = [names[0]] + ([r.choice(names[1:] + ["f1.py", "f0.py"])] if r.random() < .5 else [])
+        r.shuffle(args)
+        pol = r.choice(["follow", "follow", "follow", "replace", "skip", "error"])
+        act = r.choice([("-r", "OReplace"), ("--actions=REPLACE", "(OActions [Replace])"), ("--actions=PRINT,REPLACE", "(OActions [Print; Replace])")])
+        argv, terms = ["--symlinks=" + pol, act[0]], ["(OSymlinks SV%s)" % pol.capitalize(), act[1]]
+        if r.random() < .5:
+            argv.reverse()
+            terms.reverse()
     m = mode or ("subprocess" if r.random() < .12 else "inprocess")
     tty = (m == "subprocess" and r.random() < .25)
+    if tty:
+        answers = [a.replace("\t", " ") for a in answers]     # a tab on a terminal is the completion key
     return {"kind": "tool", "i": i, "tool": tool, "argv": argv, "terms": terms, "files": files, "args": args,
-            "answers": answers, "mode": m, "tty": tty}
+            "answers": answers, "mode": m, "tty": tty, "abs_links": abs_links}
 
 
 DIR_LAYOUT = [("inner.py", "chg"), ("z.txt", "chg"), (".hidden.py", "chg"), ("sub/deep.py", "chg"),
@@ -134,20 +198,49 @@ def exhaustive_cases(seed):
 # implementation side
 
 def content_of(tool, kind, tag):
+    if kind in FAIL_KINDS:
+        return FAIL_KINDS[kind] % tag
     return TOOLS[tool][kind] % tag
 
 
+def link_target(files, name):
+    """files[name] == 'link:<t>' / 'dangling' -> name of the path the link text denotes"""
+    k = files[name]
+    return "nowhere.py" if k == "dangling" else k[5:]
+
+
+def is_link_kind(k):
+    return k == "dangling" or k.startswith("link:")
+
+
+def final_of(files, name):
+    """independent restatement of path resolution on the generated tree: follow links (at most 40);
+    returns the first non-link name (it may not exist), or None on a loop"""
+    for _ in range(41):
+        k = files.get(name)
+        if k is None and "/" in name and files.get(name.split("/")[0]) == "dir":
+            return name
+        if k is None or not is_link_kind(k):
+            return name
+        name = link_target(files, name)
+    return None
+
+
 def build_tree(c, root):
-    """returns {relname: abspath} of every watched path, and the contents written"""
+    """returns {relname: abspath} of every watched path, and the texts written"""
     tool = c["tool"]
     watched = {}
     contents = {}
     for name, kind in c["files"].items():
         p = os.path.join(root, name)
-        if kind in ("chg", "same", "bad"):
+        if kind in TEXT_KINDS:
             contents[name] = content_of(tool, kind, name)
-            with open(p, "w") as f:
-                f.write(contents[name])
+            with open(p, "wb") as f:
+                f.write(contents[name].encode("utf-8"))
+            watched[name] = p
+        elif kind == "bin":
+            with open(p, "wb") as f:
+                f.write(BIN_BYTES % name.encode())
             watched[name] = p
         elif kind == "dir":
             for rel, k in DIR_LAYOUT:
@@ -161,16 +254,15 @@ def build_tree(c, root):
             watched[name] = p
     for name, kind in c["files"].items():
         p = os.path.join(root, name)
-        if kind.startswith("link:"):
-            os.symlink(os.path.join(root, kind[5:]), p)
-            watched[name] = p
-        elif kind == "dangling":
-            os.symlink(os.path.join(root, "nowhere.py"), p)
+        if is_link_kind(kind):
+            t = link_target(c["files"], name)
+            os.symlink(os.path.join(root, t) if name in c.get("abs_links", []) or kind == "dangling" else t, p)
             watched[name] = p
     return watched, contents
 
 
 def snap_tree(watched, root):
+    import stat as S
     out = {}
     for name, p in watched.items():
         try:
@@ -178,14 +270,18 @@ def snap_tree(watched, root):
         except FileNotFoundError:
             out[name] = None
             continue
-        import stat as S
         if S.S_ISLNK(st.st_mode):
-            t = os.readlink(p)
-            out[name] = {"link": os.path.relpath(t, root), "id": [st.st_ino, st.st_ctime_ns]}
+            raw = os.readlink(p)
+            t = raw if os.path.isabs(raw) else os.path.join(os.path.dirname(p), raw)
+            out[name] = {"link": os.path.relpath(os.path.normpath(t), root), "raw": raw.replace(root + "/", "ROOT/"),
+                         "id": [st.st_ino, st.st_ctime_ns]}
         elif S.S_ISREG(st.st_mode):
             with open(p, "rb") as f:
                 b = f.read()
-            out[name] = {"bytes": b.decode("utf-8", "replace"), "id": [st.st_ino, st.st_ctime_ns], "mode": S.S_IMODE(st.st_mode)}
+            try:
+                out[name] = {"bytes": b.decode("utf-8"), "id": [st.st_ino, st.st_ctime_ns], "mode": S.S_IMODE(st.st_mode)}
+            except UnicodeDecodeError:
+                out[name] = {"bin": b.hex(), "id": [st.st_ino, st.st_ctime_ns], "mode": S.S_IMODE(st.st_mode)}
         else:
             out[name] = {"other": True}
     return out
@@ -403,15 +499,15 @@ def model_expr(c, im, fx=None):
     tool = c["tool"]
     nodes = []
     for name, kind in c["files"].items():
-        if kind in ("chg", "same", "bad"):
+        if kind in TEXT_KINDS:
             nodes.append("(%s, NFile %s 0%%N)" % (cm.cN(ids[name]), cm.cstr(content_of(tool, kind, name))))
+        elif kind == "bin":
+            nodes.append("(%s, NBin 0%%N)" % cm.cN(ids[name]))
         elif kind == "dir":
             for rel, k in DIR_LAYOUT:
                 nodes.append("(%s, NFile %s 0%%N)" % (cm.cN(ids[name + "/" + rel]), cm.cstr(content_of(tool, k, rel))))
-        elif kind.startswith("link:"):
-            nodes.append("(%s, NLink %s)" % (cm.cN(ids[name]), cm.cN(ids[kind[5:]])))
-        elif kind == "dangling":
-            nodes.append("(%s, NLink %s)" % (cm.cN(ids[name]), cm.cN(ids["nowhere.py"])))
+        elif is_link_kind(kind):
+            nodes.append("(%s, NLink %s)" % (cm.cN(ids[name]), cm.cN(ids[link_target(c["files"], name)])))
     args = []
     for a in c["args"]:
         if c["files"][a] == "dir":
@@ -427,7 +523,7 @@ def model_expr(c, im, fx=None):
         cm.clist(nodes), cm.clist([cm.cN(w) for w in watch]))
 
 
-ERRCLASS = {"badfilename": "bad filename", "eof": "EOFError", "symlink": "SymlinkError"}
+ERRCLASS = {"badfilename": "bad filename", "eof": "EOFError", "symlink": "SymlinkError", "read": "UnicodeDecodeError"}
 
 
 def compare(ctx, c, im, mv):
@@ -453,6 +549,8 @@ def compare(ctx, c, im, mv):
             want_fs[name] = "dir"
         elif "l" in node:
             want_fs[name] = {"link": rev[node["l"]], "new_inode": False}
+        elif "bin" in node:
+            want_fs[name] = {"bin": True, "new_inode": node["bin"] >= 1}
         else:
             want_fs[name] = {"bytes": node["f"], "new_inode": node["gen"] >= 1}
         if a is None:
@@ -461,6 +559,8 @@ def compare(ctx, c, im, mv):
             got_fs[name] = {"link": a["link"], "new_inode": a["id"] != (b or {}).get("id")}
         elif "bytes" in a:
             got_fs[name] = {"bytes": a["bytes"], "new_inode": a["id"] != (b or {}).get("id")}
+        elif "bin" in a:
+            got_fs[name] = {"bin": True, "new_inode": a["id"] != (b or {}).get("id")}
         else:
             got_fs[name] = "dir"
     if got_fs != want_fs:
@@ -539,13 +639,16 @@ def spec_config(c):
     return policy, actions
 
 
+def is_yes_answer(a):
+    """the property's reading of an answer: yes iff it starts with y/Y once surrounding blanks are stripped"""
+    return a.strip().lower().startswith("y")
+
+
 def oracle(c, im):
     bad = []
     cfg = spec_config(c)
     before, after = im["before"], im["after"]
     changed = sorted(n for n in before if (after[n] or {}).get("id") != (before[n] or {}).get("id"))
-    content_changed = sorted(n for n in before if {k: v for k, v in (after[n] or {}).items() if k != "id"} !=
-                             {k: v for k, v in (before[n] or {}).items() if k != "id"})
     if im["extra_entries"]:
         bad.append(("replace_needs_go_ahead", "stray directory entries %r" % im["extra_entries"]))
     if cfg is None:
@@ -555,65 +658,112 @@ def oracle(c, im):
     policy, actions = cfg
     files = c["files"]
     table = dict(im["table"])
+
+    def text_of(n):
+        """text the tool reads through name n (None: not readable as text / not there)"""
+        f = final_of(files, n)
+        b = before.get(f) if f is not None else None
+        return b.get("bytes") if b else None
+
+    def fails(n):
+        """reading or rewriting n raises"""
+        t = text_of(n)
+        return t is None or table.get(t, "x") is None
+
     # the expanded argument list, by kind
     argfiles = []
+    unusable = []
     for a in c["args"]:
         k = files[a]
         if k == "dir":
             argfiles += [(m, "reg") for m in dir_members(a)]
-        elif k.startswith("link:"):
-            argfiles.append((a, "link"))
-        elif k in ("chg", "same", "bad"):
+        elif is_link_kind(k):
+            f = final_of(files, a)
+            if f is None or before.get(f) is None or ("bytes" not in before[f] and "bin" not in before[f]):
+                unusable.append(a)                     # loop, dangling chain
+            else:
+                argfiles.append((a, "link"))
+        elif k in TEXT_KINDS or k == "bin":
             argfiles.append((a, "reg"))
-    allowed = set()
-    for name, kind in argfiles:
-        allowed.add(name)
-        if kind == "link" and policy == "follow":
-            allowed.add(files[name][5:])
+        else:
+            unusable.append(a)
+    argnames = [n for n, _ in argfiles]
+    allowed = set(argnames)
+    if policy == "follow":
+        allowed |= {final_of(files, n) for n, kd in argfiles if kd == "link"}
     # (1) PRINT/DIFF-only lists: everything byte-identical
     if "REPLACE" not in actions and changed:
         bad.append(("noop_cases", "action list %r has no REPLACE but %r changed" % (actions, changed)))
-    # (2) only argument files (or followed targets) may change
+    # (2) only argument files (or the final targets of followed links) may change
     for n in changed:
         if n not in allowed:
-            bad.append(("replace_needs_go_ahead", "%s changed but is neither an argument nor a followed link target" % n))
-    # (3) symlink policy
+            bad.append(("replace_needs_go_ahead", "%s changed but is neither an argument nor the final target of a followed link" % n))
+    # (3) symlink policy: unless the policy is `replace` every symlink of the tree stays the same symlink;
+    #     under error/skip the file behind a link argument is untouched (unless named itself)
+    for name, kind in files.items():
+        if is_link_kind(kind) and policy != "replace":
+            a, b = after.get(name), before.get(name)
+            if a is None or "link" not in a or a.get("raw") != b.get("raw") or a["id"] != b["id"]:
+                clause = "noop_cases" if policy == "follow" else "policy_survives_options"
+                bad.append((clause, "symlink %s (-> %s) did not stay the same symlink under --symlinks=%s (argv %r): %r"
+                            % (name, b.get("raw"), policy, c["argv"], a)))
     for name, kind in argfiles:
-        if kind != "link":
-            continue
-        tgt = files[name][5:]
-        if policy in ("error", "skip", "follow") and (after[name] is None or "link" not in after[name]):
-            bad.append(("policy_survives_options", "symlink %s was replaced by a file under --symlinks=%s (argv %r)" % (name, policy, c["argv"])))
-        if policy in ("error", "skip") and tgt in changed and tgt not in [n for n, _ in argfiles]:
-            bad.append(("policy_survives_options", "target %s of symlink %s changed under --symlinks=%s" % (tgt, name, policy)))
-    # (4) a file the rewriter fails on is never changed
+        if kind == "link" and policy in ("error", "skip"):
+            tgt = final_of(files, name)
+            if tgt in changed and tgt not in argnames:
+                bad.append(("policy_survives_options", "target %s of symlink %s changed under --symlinks=%s" % (tgt, name, policy)))
+    # (4) a file the reader / rewriter fails on is never changed
     for n in changed:
-        if before[n] and "bytes" in before[n] and table.get(before[n]["bytes"], "x") is None:
-            bad.append(("noop_cases", "%s is unparsable but was rewritten" % n))
-    # (5) IFCHANGED ahead of the first REPLACE: an unchanged file keeps its inode
+        b = before[n]
+        if b and ("bin" in b or ("bytes" in b and table.get(b["bytes"], "x") is None)):
+            bad.append(("noop_cases", "%s cannot be rewritten but was changed" % n))
     if "REPLACE" in actions:
         k = actions.index("REPLACE")
-        if "IFCHANGED" in actions[:k]:
+        pre = actions[:k]
+        # (5) IFCHANGED ahead of the first REPLACE: an already tidy file keeps its inode
+        if "IFCHANGED" in pre:
             for n in changed:
                 b = before[n]
-                if b and "bytes" in b and table.get(b["bytes"]) == b["bytes"] and n in [x for x, kd in argfiles if kd == "reg"] \
-                   and [x for x, _ in argfiles].count(n) == 1 and not any(files.get(l, "") == "link:" + n for l, _ in argfiles):
+                if b and "bytes" in b and table.get(b["bytes"]) == b["bytes"]:
                     bad.append(("noop_cases", "%s is already tidy but was rewritten despite IFCHANGED" % n))
         # (6) QUERY ahead of the first REPLACE and nobody said yes
-        if "QUERY" in actions[:k] and not any(a.strip().lower().startswith("y") for a in c["answers"]) and changed:
+        if "QUERY" in pre and not any(is_yes_answer(a) for a in c["answers"]) and changed:
             bad.append(("noop_cases", "no answer was a yes but %r changed" % changed))
+        # (6b) answer by answer: with regular file arguments and only IFCHANGED / one QUERY ahead of REPLACE the
+        #      k-th file that gets asked is rewritten only if the k-th scripted answer is a yes (EOF = no answer)
+        if pre.count("QUERY") == 1 and set(pre) <= {"IFCHANGED", "QUERY"} and all(kd == "reg" for _, kd in argfiles):
+            answers = list(c["answers"])
+            cur = {n: (before[n] or {}).get("bytes") for n in argnames}
+            may_change = set()
+            for n in argnames:
+                t = cur[n]
+                go = True
+                for a in pre:
+                    if a == "IFCHANGED":
+                        if t is None or table.get(t, "x") is None or table.get(t) == t:
+                            go = False
+                            break
+                    else:
+                        if not answers or not is_yes_answer(answers.pop(0)):
+                            go = False
+                            break
+                if go and t is not None and table.get(t) is not None:
+                    may_change.add(n)
+                    cur[n] = table[t]
+            for n in changed:
+                if n not in may_change:
+                    bad.append(("noop_cases", "%s was rewritten although the answer it got is not a yes (answers %r, arguments %r)"
+                                % (n, c["answers"], argnames)))
     # (7) errors do not stop the run and are reported
-    failing = [a for a in c["args"] if files[a] in ("missing", "dangling")]
+    failing = list(unusable)
     if policy == "error":
         failing += [n for n, kd in argfiles if kd == "link"]
-    forced = any(a in actions for a in ("PRINT", "REPLACE", "IFCHANGED", "DIFF", "EXECUTE"))
+    forcing = [a for a in ("PRINT", "REPLACE", "IFCHANGED", "DIFF", "EXECUTE") if a in actions]
     for n, kd in argfiles:
-        src = before[n]["bytes"] if kd == "reg" else before[files[n][5:]]["bytes"]
-        if table.get(src, "x") is None and forced and not (kd == "link" and policy in ("error", "skip")):
-            # reached only if nothing before the first forcing action stops the file
-            first = min(actions.index(a) for a in ("PRINT", "REPLACE", "IFCHANGED", "DIFF", "EXECUTE") if a in actions)
+        if fails(n) and forcing and not (kd == "link" and policy in ("error", "skip")):
+            first = min(actions.index(a) for a in forcing)
             if not any(a in actions[:first] for a in ("QUERY", "EXIT1")):
-                failing.append(n)
+                failing.append(n)          # nothing ahead of the first forcing action can stop the file
     if failing:
         if im["rc"] == 0:
             bad.append(("errors_do_not_stop", "failing arguments %r but exit status 0" % failing))
@@ -624,7 +774,8 @@ def oracle(c, im):
         # with a plain replace list every changed regular file argument must have been rewritten,
         # wherever it stands relative to failing arguments
         for n, kd in argfiles:
-            if kd == "reg" and table.get(before[n]["bytes"]) not in (None, before[n]["bytes"]) and n not in changed:
+            t = text_of(n)
+            if kd == "reg" and t is not None and table.get(t) not in (None, t) and n not in changed:
                 bad.append(("errors_do_not_stop", "%s was not processed (arguments %r, failing %r)" % (n, c["args"], failing)))
     return bad
 
@@ -673,19 +824,23 @@ def evaluate(ctx, cases, impl):
 
 
 def run(ctx):
+    cm.check_anchors(ctx, ANCHORS)
     thorough = not ctx.quick
-    n = 6000 if thorough else 420
+    n = (6000 if thorough else 420) * getattr(ctx, "scale", 1)
     ctx.coverage["rule"] = (
         "invocations of bin/tidy-imports (50%), reformat-imports, transform-imports with 0-4 options among --symlinks=error|follow|skip|"
         "replace|bogus, -r/-p/-d/-R/-i, --quiet/--uniform, --actions=<1-4 words incl. lower case, QUERY:prompt, EXECUTE:true, an unknown word>; "
-        "1-6 arguments among changed / already-tidy / unparsable regular files, symlinks, a dangling symlink, a missing name, a directory "
-        "tree (hidden, non-py, __pycache__, nested), the same file twice; 0-6 scripted answers; ~12% as unpatched subprocesses (a quarter of "
+        "1-6 arguments among changed / already-tidy regular files, files failing with different exception classes (SyntaxError, null byte, "
+        "RecursionError, invalid UTF-8 = UnicodeDecodeError in the reader), symlinks (1-3 hops, relative and absolute text, into a directory, "
+        "ending nowhere, a loop), a missing name, a directory tree (hidden, non-py, __pycache__, nested), the same file twice; 0-6 scripted "
+        "answers among y/Yes/n/no/empty/blank/tab/'yes please'/q/... and EOF; 15% QUERY-shaped cases judged answer by answer; ~12% as "
+        "unpatched subprocesses (a quarter of "
         "those under a pty = default interactive tuple), the rest in-process through runpy; thorough adds every action tuple of length <= 3 "
         "(with REPLACE) x 4 policies; non-trivial = some inode changed or exit status non-zero; distinct by hash of the case")
     ctx.assumptions += [
         "the tool's rewriting function is an oracle argument: for every text that can occur in the scratch tree it is read off a separate --actions=PRINT run of the real tool",
         "commands run by DIFF / EXECUTE do not touch the files (generator uses pyflyby-diff and `true`)",
-        "symlinks are one level deep (a link's target is a regular file or missing); directory expansion is restated in the harness (M11)",
+        "symlink chains are resolved as the kernel does (at most 40 hops, ELOOP on a loop); directory expansion is restated in the harness (M11)",
         "answers are ASCII; QUERY accepts exactly the answers whose first non-blank character is y or Y",
     ]
     ctx.notes["model_fixes"] = os.environ.get("VERIF_C09_FIXES", "repaired_code")
